@@ -13,6 +13,7 @@ import (
 const hugeM = uint64(1) << 40
 
 type sweeper struct {
+	fam     string
 	sig     string // program signature for keys
 	src     string
 	runAt   func(m uint64) *Res // executes the program under limit m
@@ -29,12 +30,12 @@ type sweeper struct {
 }
 
 func newSweeper(sig, src string, runAt func(m uint64) *Res) *sweeper {
-	return &sweeper{sig: sig, src: src, runAt: runAt, results: map[uint64]*Res{}, verdict: map[uint64]byte{},
+	return &sweeper{fam: "sweep", sig: sig, src: src, runAt: runAt, results: map[uint64]*Res{}, verdict: map[uint64]byte{},
 		cause: map[uint64]string{}, viols: map[string]*core.Violation{}, states: map[uint64]struct{}{}, maxCrashes: 6}
 }
 
 func (s *sweeper) viol(clause, cause string, m uint64, r *Res, extra string) {
-	key := fmt.Sprintf("sweep %s clause=%s cause=%s", s.sig, clause, cause)
+	key := fmt.Sprintf("%s %s clause=%s cause=%s", s.fam, s.sig, clause, cause)
 	if _, ok := s.viols[key]; ok {
 		return
 	}
@@ -69,7 +70,15 @@ func sameObs(a, b *Res) bool {
 	return true
 }
 
-const innerKilled = `s:"inner",s:"killed"`
+// An event whose second value is the status string "killed": a nested context
+// (runtime.callcontext) reported to its parent that it was killed.
+func isInnerKilled(e string) bool {
+	if !strings.HasPrefix(e, `s:"`) {
+		return false
+	}
+	k := strings.Index(e[3:], `",`)
+	return k >= 0 && strings.HasPrefix(e[3+k+2:], `s:"killed"`)
+}
 
 // tracePrefixOrInner: r's trace is a prefix of the reference trace, or deviates
 // from it first at an event saying that a nested context (which has its own
@@ -79,7 +88,7 @@ func tracePrefixOrInner(r, ref *Res) (ok bool, inner bool) {
 		if i < len(ref.Trace) && ref.Trace[i] == e {
 			continue
 		}
-		if strings.HasPrefix(e, innerKilled) {
+		if isInnerKilled(e) {
 			return true, true
 		}
 		return false, false
@@ -156,18 +165,21 @@ func (s *sweeper) classify(m uint64, r *Res) byte {
 		s.viol("intercepted", cause, m, r, "Lua code ran after a termination and observed it (failure markers: "+strings.Join(r.Markers, ",")+")")
 		return 'X'
 	}
+	prefixOK, inner := tracePrefixOrInner(r, s.ref)
+	if inner {
+		// A nested context was killed where it is not in the reference run:
+		// from there on the parent runs a different, legitimate path.
+		return 'I'
+	}
 	switch r.Status {
 	case "ok":
 		if sameObs(r, s.ref) {
 			return 'D'
 		}
-		if ok, inner := tracePrefixOrInner(r, s.ref); ok && inner {
-			return 'I'
-		}
 		s.viol("done-differs", cause, m, r, "the run completed with an observation different from the unlimited one")
 		return 'X'
 	case "killed":
-		if ok, _ := tracePrefixOrInner(r, s.ref); !ok {
+		if !prefixOK {
 			s.viol("trace-not-prefix", cause, m, r, "the killed run's trace is not a prefix of the unlimited trace")
 			return 'X'
 		}
@@ -315,8 +327,24 @@ func (s *sweeper) run() sweepSummary {
 		ms = append(ms, m)
 	}
 	sort.Slice(ms, func(i, j int) bool { return ms[i] < ms[j] })
+	// A nested context killed by its own limit already in the reference run:
+	// its effective limit is min(own limit, parent's remaining budget), so for
+	// small M the nested computation stops at an M dependent point while the
+	// parent carries on by design; no monotonicity is promised then.
+	refInner := false
+	for _, e := range s.ref.Trace {
+		if isInnerKilled(e) {
+			refInner = true
+		}
+	}
 	var T, Tok uint64
 	for _, m := range ms {
+		if refInner {
+			if s.verdict[m] == 'D' && T == 0 {
+				T = m
+			}
+			continue
+		}
 		r := s.results[m]
 		if s.verdict[m] == 'D' {
 			if T == 0 {
